@@ -25,6 +25,7 @@ CHECKS = {
         "runs": [
             {"pkg": "internal/state", "test": "TestVerif_C13"},
             {"pkg": "internal/state", "test": "TestVerif_C13Conc", "race": True},
+            {"pkg": "internal/spynode", "test": "TestVerif_C13DS"},
         ],
         "race_attrib": [r"state\.\(\*State\)\."],
     },
@@ -123,6 +124,7 @@ CHECKS = {
         "level_note": "Trusted: the scripted peer as the model of a Bitcoin node (getheaders answered from the first known locator hash with up to 2000 headers, header announcements after sendheaders); virtual time by ageing stored request times through an overlay accessor; the harness re-issues the loop bodies of monitorIncoming/processBlocks/Run's reconnect (the L1 engine over real TCP cross-checks this).",
         "runs": [
             {"pkg": "internal/spynode", "test": "TestVerif_C01"},
+            {"pkg": "internal/spynode", "test": "TestVerif_C01L1"},
         ],
     },
     "C02": {
